@@ -168,17 +168,17 @@ std::unique_ptr<NodeResult> ArithmeticOperationNode::evaluate(PSC::Context &ctx)
             right = integer.value;
         }
 
+        const PSC::EnumTypeDefinition &definition = enumVal.getDefinition(ctx);
+        PSC::int_t enumSize = (PSC::int_t) definition.values.size();
+
         PSC::int_t res;
         if (token.type == TokenType::PLUS) {
-            res = left + right;
+            res = (left % enumSize) + (right % enumSize);
         } else {
-            res = left - right;
+            res = (left % enumSize) - (right % enumSize);
         }
-
-        const PSC::EnumTypeDefinition &definition = enumVal.getDefinition(ctx);
-        std::size_t enumSize = definition.values.size();
-        res %= (PSC::int_t) enumSize;
-        if (res < 0) res += (PSC::int_t) enumSize;
+        res %= enumSize;
+        if (res < 0) res += enumSize;
 
         std::unique_ptr<PSC::Enum> resEnum = std::make_unique<PSC::Enum>(definition.name);
         resEnum->idx = res;
